@@ -96,6 +96,14 @@ impl WalIndex {
             return Err(crate::wal::verif::injected_error());
         }
         fs::rename(&tmp_path, &self.path)?;
+        // The rename is a directory operation: without an fsync of the directory a power loss can
+        // bring back the previous index although the read that persisted this one was acknowledged.
+        if let Some(dir) = std::path::Path::new(&self.path)
+            .parent()
+            .filter(|p| !p.as_os_str().is_empty())
+        {
+            fs::File::open(dir)?.sync_all()?;
+        }
         Ok(())
     }
 }
